@@ -7,12 +7,12 @@ open YaegiVerif.RunId
 
 def facts : RunIdFacts :=
   { callId := .parent,          -- run.go call: newFrame(f, len(def.types), f.runid())
-    wrapperId := .root,         -- run.go genFunctionWrapper: newCallFrame(f, len(def.types))              (4a41b28, F10)
-    wrapperDone := .root,       --   interp.go newCallFrame: root := anc.root; f := newFrame(anc, length, root.runid());
-    closureId := .root,         -- run.go getFunc: fr := f.clone(); newCallFrame(fr, len(n.types))         (4a41b28, F10)
-    closureDone := .root,       --   f.done = root.done                                                    (1578873, F09-2)
+    wrapperId := .epoch,        -- run.go genFunctionWrapperFor: newCallFrame(n.interp, f, len(def.types), e), e = f.getEpoch() read when the wrapper is generated
+    wrapperDone := .interp,     --   interp.go newCallFrame (dc95f3e): RLock; id, done := interp.runid(), interp.done;
+    closureId := .epoch,        -- run.go getFunc: fr := f.clone(); newCallFrame(n.interp, fr, len(n.types), fr.getEpoch())
+    closureDone := .interp,     --   if e != nil && e.cancelled { id = deadRunID }; RUnlock; &frame{anc, anc.root, id, epoch e, done}
     cloneKeepsId := true,       -- interp.go clone: id: f.runid()
-    cloneKeepsDone := true,     --                  done: f.done   (no longer looked at by newCallFrame)
+    cloneKeepsDone := true,     --                  done: f.done   (not looked at by newCallFrame)
     entryId := .parent,         -- run.go (*Interpreter).run: newFrame(cf, len(n.types), cf.runid())       (c403bf5, F09)
     entryRootShared := true,    --   if cf == nil { f = interp.frame }
     guardPlain := true,         -- run.go runCfg: for exec := n.exec; exec != nil && f.runid() == n.interp.runid(); {
@@ -20,22 +20,26 @@ def facts : RunIdFacts :=
     stopBumps := true,          -- interp.go stop: atomic.AddUint64(&interp.id, 1)
     stopCloses := true,         --                 close(interp.done)
     stopRenews := true,         --                 interp.done = make(chan struct{})                       (ba001d8)
-    execRefresh := true,        -- program.go Execute: interp.frame.setrunid(interp.runid())
-    execRefreshAtReturn := true, --                    defer func() { interp.frame.setrunid(interp.runid()) }()   (4a41b28)
+    execRefresh := true,        -- program.go Execute: defer interp.end(interp.begin()); begin: interp.frame.setrunid(interp.runid())
+    execRefreshAtReturn := false, --                   end() refreshes nothing: the deferred refresh of 4a41b28 is gone (dc95f3e)
     execChecksCancel := false,  -- program.go Execute walks its whole run list whatever happened (the entries are stale)
-    importRefresh := true,      -- src.go importSrc: interp.frame.setrunid(interp.runid()) before the entry points (2667a11)
+    importRefresh := true,      -- src.go importSrc: defer interp.end(interp.begin()) before the entry points
     watcherStops := true,       -- case <-ctx.Done(): interp.stop()
     watcherCtxErr := true,      --                    return reflect.Value{}, ctx.Err()
-    ctxFreshDone := true,       -- interp.done = make(chan struct{}) in the three ...WithContext entry points
-    ctxSetsCancelChan := false, -- (they no longer touch cancelChan)
+    ctxFreshDone := false,      -- the three ...WithContext entry points no longer replace interp.done    (2db9fe7)
+    ctxSetsCancelChan := false, -- (nor touch cancelChan)
     newSetsCancelChan := true,  -- interp.go New: i.cancelChan = !i.opt.fastChan                            (cc65000, F26)
-    recv := { doneCase := true, byFlag := true, doneEnds := true },    -- variant chosen when generated: by a flag that is now constant
+    recv := { doneCase := true, byFlag := true, doneEnds := true },    -- variant chosen when generated: by a flag that is constant
     recv2 := { doneCase := true, byFlag := true, doneEnds := true },
     send := { doneCase := true, byFlag := true, doneEnds := true },
     range := { doneCase := true, byFlag := false, doneEnds := true },
     select := { doneCase := true, byFlag := false, doneEnds := true },
-    recvStoresAfterCheck := true,   -- chosen, v, _ := reflect.Select(…); if chosen == 0 { return nil }; getFrame(f, l).data[i] = v  (50c4f88, cc65000)
-    closureRestoresSlot := false }  -- getFunc's wrapper no longer writes getFrame(f, l).data[i] back       (d26dd9e, F09-1)
+    recvStoresAfterCheck := true,   -- chosen, v, _ := reflect.Select(…); if chosen == 0 { return nil }; getFrame(f, l).data[i] = v
+    closureRestoresSlot := false,   -- getFunc's wrapper does not write getFrame(f, l).data[i] back         (d26dd9e, F09-1)
+    stopMarksEpochs := true,        -- stop: for e := range interp.running { e.cancelled = true }, before the bump   (dc95f3e)
+    epochPlumbing := true,          -- begin / end, newFrame: f.epoch = anc's, clone: epoch: f's, wrapper: e = f.getEpoch(), getFunc: fr.getEpoch()
+    newMakesDone := true,           -- New: done: make(chan struct{})                                        (2db9fe7)
+    hostWrapperNoEpoch := true }    -- Execute's result and Symbols(): genHostFunctionWrapper (nil epoch)
 
 /-- program.go Execute: root code and global variables run on the root frame, every init (and main,
     appended to p.init by Compile) in a new frame -/
@@ -43,32 +47,42 @@ def execRuns : List String := ["p.root, nil", "n, nil", "loop p.init: n, interp.
 
 /-- fingerprints (extract/common FuncHash) of the small functions Model/RunId.lean was transcribed from -/
 def sourceHashes : List (String × String) :=
-  [("newFrame", "da1db819d5067f56"),
-   ("newCallFrame", "43aa5e7f13021a5b"),
+  [("newFrame", "8d3a53ebf9cf8afa"),                         -- dc95f3e: f.epoch = anc's
+   ("newCallFrame", "40f1e0d7f7a1dce0"),                     -- dc95f3e
    ("frame.runid", "b7fc6ada9f6f42f5"),
    ("frame.setrunid", "77219c18ca24e88d"),
-   ("frame.clone", "ccd71f62c6588b0a"),
-   ("Interpreter.stop", "02f62084f0b94724"),                 -- ba001d8: lock, close, fresh channel, unlock
+   ("frame.clone", "288c927fcf00073e"),                      -- dc95f3e: epoch copied
+   ("Interpreter.stop", "b5b2150d417ec13c"),                 -- dc95f3e: running epochs marked first
+   ("Interpreter.begin", "326ee6ac1beb32eb"),
+   ("Interpreter.end", "b1f6e88034b124db"),
    ("Interpreter.runid", "7284bb1c1cc48ab0"),
-   ("Interpreter.EvalWithContext", "dc254e0454ea5c26"),      -- cc65000: the cancelChan assignment is gone
-   ("Interpreter.EvalPathWithContext", "8ab1ac4be2fe2922"),  -- cc65000
-   ("Interpreter.ExecuteWithContext", "015dc2f92b36711b"),   -- cc65000
+   ("Interpreter.EvalWithContext", "876c6e80fed18d2c"),      -- 2db9fe7: the per-call done channel is gone
+   ("Interpreter.EvalPathWithContext", "47c0649be8256334"),  -- 2db9fe7
+   ("Interpreter.ExecuteWithContext", "c69d60d7c666c1ce"),   -- 2db9fe7
    ("Interpreter.run", "313a9867b7b4d0f2"),                  -- c403bf5: cf.runid()
    ("rangeChan", "948ef0190bcb7722")]
+
+/-- the record the extractor produces on the tree before the epoch repair (48cb9d4: after the eight repairs of round 2):
+    the subject of the witnesses of F09-3 (Props/C09.lean), F10-1 and F10-3 (Props/C10.lean) -/
+def round2Facts : RunIdFacts :=
+  { facts with
+    wrapperId := .root, wrapperDone := .root, closureId := .root, closureDone := .root,
+    execRefreshAtReturn := true, ctxFreshDone := true,
+    stopMarksEpochs := false, epochPlumbing := false, newMakesDone := false, hostWrapperNoEpoch := false }
 
 /-- the record the extractor produces on the tree before the eight repairs of round 2 (32d4f06): the subject of the
     old-fact witnesses (F09, F26, F09-2 in Props/C09.lean, F10 in Props/C10.lean) -/
 def oldFacts : RunIdFacts :=
-  { facts with
+  { round2Facts with
     wrapperId := .parent, wrapperDone := .inherit, closureId := .parent, closureDone := .inherit,
     entryId := .interp, stopRenews := false, execRefreshAtReturn := false, importRefresh := false,
     ctxSetsCancelChan := true, newSetsCancelChan := false,
     recvStoresAfterCheck := false, closureRestoresSlot := true }
 
 /-- what the property demands of the calls of function values: a frame made by an operation of a frame of the
-    cancelled evaluation belongs to that evaluation (it takes that frame's id), whoever made the function value.
-    The specification column (`g=`) of the driver is the machine run with these facts; `Props.C09.ideal_full`
-    proves the full statement for them. -/
+    cancelled evaluation belongs to that evaluation (it takes that frame's id), whoever made the function value — one
+    of an earlier evaluation included. The specification column (`g=`) of the driver is the machine run with these
+    facts; `Props.C09.ideal_full` proves the full statement for them. -/
 def ideal : RunIdFacts :=
   { facts with wrapperId := .parent, closureId := .parent }
 
